@@ -1,6 +1,7 @@
 (** Properties/C08.v — "Content-stream operators round-trip and mean what the operator table says".
     Only statements, each closed by [exact] of a lemma proved in Content/. *)
-From PdfV Require Import Base.Prelude Gen.Generated Content.Model Content.Canon Content.Proofs Content.TableProofs.
+From PdfV Require Import Base.Prelude Gen.Generated Content.Model Content.Canon Content.Proofs Content.TableProofs
+  Content.Bytes Content.BytesProofs.
 
 (** full statement of the round trip: every sequence the serializer accepts with finite operands.
     [accepted] (Content/Proofs.v) excludes exactly: inline images (serialize_ops refuses them), negative zero
@@ -22,6 +23,29 @@ Theorem C08_roundtrip : forall lex ops, accepted ops -> lex_reads_back lex ops -
 Proof. exact roundtrip_bytes. Qed.
 Print Assumptions C08_roundtrip.
 
+(** the round trip on BYTES without a premise: the reader is OpBuilder::parse's token loop over the shared lexer and
+    parser models (Content/Bytes.v: parse_with_lexer, falling back to Lexer::next for an operator keyword).
+    [writable] (decidable; Content/BytesProofs.v) says of every operand serialize_ops writes for [ops]: integers within
+    i32, reals written with a decimal point, names of valid UTF-8, strings of bytes, dictionaries without a repeated
+    key, nesting within the parser's depth limit.  [img] is the typed reading of an inline image's dictionary; no
+    inline image is written, so the statement holds for every one. *)
+Theorem C08_roundtrip_bytes : forall img ops, accepted ops -> writable ops ->
+  forall b, ser_ops ops = Ok b -> parse_bytes_with img b = Ok ops.
+Proof. exact roundtrip_bytes_closed. Qed.
+Print Assumptions C08_roundtrip_bytes.
+
+(** the former premise [lex_reads_back], as a theorem about that reader: on the text of a written token stream it
+    does what the builder does on the tokens *)
+Theorem C08_lex_reads_back : forall img ts b,
+  toks_okb ts = true -> render_toks ts = Ok b -> parse_bytes_with img b = parse_ops_toks ts.
+Proof. exact lex_reads_back_discharged. Qed.
+Print Assumptions C08_lex_reads_back.
+
+(** … and serialize_ops does write such a sequence *)
+Theorem C08_ser_defined : forall ops, accepted ops -> writable ops -> exists b, ser_ops ops = Ok b.
+Proof. exact ser_ops_writable. Qed.
+Print Assumptions C08_ser_defined.
+
 (** serializer's current_point and builder's `last` agree initially and after every step *)
 Theorem C08_cur_point_sync :
   sync None (fst st0) /\
@@ -31,6 +55,19 @@ Theorem C08_cur_point_sync :
     exists last2, add k args (last, false) = (o :: firstn n rest, Ok (last2, false)) /\ sync cur2 last2.
 Proof. exact cur_point_sync. Qed.
 Print Assumptions C08_cur_point_sync.
+
+(** the writer's current_point is never more than the standard's current point (Table 59: h, re, the painting
+    operators included), and `v` is written only when the first control point equals it (C08-i, fixed) *)
+Theorem C08_writer_current_point :
+  below None None /\
+  (forall cur (st : option point * option point) o rest args k cur2 n,
+     below cur (fst st) -> ser_head cur o rest = Ok (args, k, cur2, n) ->
+     below cur2 (fst (fold_left iso_cp_step (o :: firstn n rest) st))) /\
+  (forall cur (st : option point * option point) c1 c2 p rest args cur2 n,
+     below cur (fst st) -> ser_head cur (OCurveTo c1 c2 p) rest = Ok (args, Kv, cur2, n) ->
+     exists q, fst st = Some q /\ pt_eqb c1 q = true /\ args = num2 c2 ++ num2 p).
+Proof. exact writer_cp_iso. Qed.
+Print Assumptions C08_writer_current_point.
 
 (** the standard's definitions of the shorthand and alias operators, for all operands *)
 Theorem C08_table : forall st,
@@ -60,10 +97,10 @@ Theorem C08_table_d0_d1_refuted : ~ C08_table_full_statement.
 Proof. exact table_d0_d1_refuted. Qed.
 Print Assumptions C08_table_d0_d1_refuted.
 
-(** text rendering modes 6 and 7 are rejected (open finding C08-f) *)
-Theorem C08_table_Tr_refuted : ~ C08_table_Tr_full_statement.
-Proof. exact table_Tr_refuted. Qed.
-Print Assumptions C08_table_Tr_refuted.
+(** Table 106: every text rendering mode 0..7 yields its operation (C08-f, fixed) *)
+Theorem C08_table_Tr : C08_table_Tr_full_statement.
+Proof. exact table_Tr_full. Qed.
+Print Assumptions C08_table_Tr.
 
 (** operands never leak: after any operator the buffer is empty … *)
 Theorem C08_no_leak : forall st buf w r, beqb w (kw_name KBI) = false ->
@@ -124,3 +161,6 @@ Proof.
   destruct (roundtrip_tokens demo_ops demo_accepted) as [ts [Hts _]].
   exists (fun _ => Ok ts). intros ts' b H _. rewrite Hts in H. inversion H. reflexivity.
 Qed.
+
+Example C08_demo_roundtrip_bytes : exists b, ser_ops demo_ops = Ok b /\ parse_bytes_raw b = Ok demo_ops.
+Proof. exact demo_roundtrip_bytes. Qed.
